@@ -336,9 +336,11 @@ Section C01.
                         (late ph = false -> late ph' = true -> a = d /\ pend (getT s' d) = [] /\ joined ph = true))
       as (ph' & Hrz' & Hj1 & Hj2 & Hok' & Hl1 & Hl2).
     { destruct (Nat.eq_dec a d) as [->|Hne].
-      - destruct (accept_dtor_owner _ _ _ _ _ _ Hrz Hde H) as (ph' & A & B & C & D & E & F). exists ph'. repeat split; auto; apply F; assumption.
-      - rewrite (accept_rz_nonowner _ _ _ _ _ _ _ _ Hrz Hne H). exists ph. rewrite Hrz. repeat split; auto; try tauto.
-        all: intros A B; rewrite A in B; discriminate. }
+      - destruct (accept_dtor_owner _ _ _ _ _ _ Hrz Hde H) as (ph' & A & B & C & D & E & F). exists ph'.
+        split; [exact A|]. split; [exact B|]. split; [exact C|]. split; [auto|]. split; [exact E|].
+        intros X Y. destruct (F X Y). auto.
+      - rewrite (accept_rz_nonowner _ _ _ _ _ _ _ _ Hrz Hne H). exists ph. rewrite Hrz.
+        split; [reflexivity|]. split; [tauto|]. split; [intros; congruence|]. split; [exact Hok|]. split; [tauto|]. intros; congruence. }
     assert (late_state s' = late ph') as Hls' by (unfold late_state; rewrite Hrz'; reflexivity).
     constructor.
     - eauto.
@@ -495,11 +497,6 @@ Section C01.
   Qed.
 End C01.
 
-(* the contract of ~ThreadPool as literally documented ("illegal to call the destructor while any OTHER thread makes calls to the pool"):
-   it does not forbid a task that the destructor itself runs from submitting more work *)
-Definition contract_event_weak (s1 : state) (d : nat) (ae : nat * event) : Prop :=
-  is_dtor_end (snd ae) = false /\ (fst ae = d \/ is_worker (getT s1 (fst ae)) = 1).
-
 (* witness (= event trace of the REAL code, props/pool_common.py WITNESSES[3]): pool(1) with its worker asleep; schedulePlaced(t0) puts t0 into
    steal ring 0; ~ThreadPool starts at once; the worker exits; the destructor drains central (empty), rings, then steal ring 0: it runs t0,
    whose body calls pool.schedule(t1): numThreads_ is still 1, so t1 is counted and enqueued centrally -- after the last central drain. *)
@@ -511,11 +508,11 @@ Definition c01_late_during : list (nat * event) :=
    (0%nat,EEnqCentral 0 1); (0%nat,EBodyEnd 0); (0%nat,EStealDone 0)].
 
 Lemma c01_late_witness :
-  exists s1 s, accepts 16 32 8 (init 8 1) c01_late_prefix = Some s1 /\ quiet s1 0 /\ Forall (contract_event_weak s1 0%nat) c01_late_during /\
+  exists s1 s, accepts 16 32 8 (init 8 1) c01_late_prefix = Some s1 /\ quiet s1 0 /\ Forall (contract_event s1 0%nat) c01_late_during /\
     accepts 16 32 8 s1 ((0%nat, EDtorBegin) :: c01_late_during ++ [(0%nat, EDtorEnd)]) = Some s /\
     rz s = RDead /\ gens s = [1; 0] /\ done s = [0] /\ central s = [(0, 1)].
 Proof.
   eexists. eexists. split; [vm_compute; reflexivity|]. split; [apply quietb_sound; vm_compute; reflexivity|].
-  split; [repeat (apply Forall_cons; [unfold contract_event_weak; cbn [fst snd is_dtor_end]; split; [reflexivity|]; first [left; reflexivity | right; vm_compute; reflexivity]|]); apply Forall_nil|].
+  split; [repeat (apply Forall_cons; [unfold contract_event; cbn [fst snd is_dtor_end]; split; [reflexivity|]; first [left; reflexivity | right; vm_compute; reflexivity]|]); apply Forall_nil|].
   vm_compute. repeat split.
 Qed.
